@@ -86,8 +86,9 @@ type reqCase struct {
 	supplied bool
 }
 
-var helloChrome = bubble.Hello{Name: "chrome120", ID: &utls.HelloChrome_120, ALPN: []string{"h2", "http/1.1"}, SNI: "localhost"}
-var helloChromeH1 = bubble.Hello{Name: "chrome120-h1", ID: &utls.HelloChrome_120, ALPN: []string{"http/1.1"}, SNI: "localhost"}
+// two DIFFERENT hellos that carry the SAME client random (fixed randomness): nothing the client chooses identifies a connection
+var helloChrome = bubble.Hello{Name: "chrome120", ID: &utls.HelloChrome_120, ALPN: []string{"h2", "http/1.1"}, SNI: "localhost", Rand: bubble.FixedRand{}}
+var helloChromeH1 = bubble.Hello{Name: "firefox105-h1", ID: &utls.HelloFirefox_105, ALPN: []string{"http/1.1"}, SNI: "localhost", Rand: bubble.FixedRand{}}
 
 // runCases runs a batch of requests on one h1 and one h2 connection of a fresh stack.
 // prefill: the connections first carry a request with many distinct, long, uncommon header names (per-connection
